@@ -12,6 +12,7 @@ import (
 	"fmt"
 	"sort"
 	"testing"
+	"time"
 
 	"pgregory.net/rapid"
 	"verifharness/internal/ev"
@@ -34,7 +35,8 @@ type Step struct {
 	Empty  bool `json:"empty,omitempty"`
 	// fault plan for the writes this step causes
 	FailNodes []int  `json:"fail_nodes,omitempty"` // node indices whose write fails
-	Mode      string `json:"mode,omitempty"`       // transport | rpc (remote log refuses) | lostreply (remote stores, reply lost); the local node always fails as "local log refuses"
+	HangMs    int    `json:"hang_ms,omitempty"`    // mode hang: the remote log stalls for so long (real time) and then refuses
+	Mode      string `json:"mode,omitempty"`       // hang | transport | rpc (remote log refuses) | lostreply (remote stores, reply lost); the local node always fails as "local log refuses"
 }
 
 type Case struct {
@@ -178,6 +180,8 @@ func run(c Case) (f *failure, nontrivial bool) {
 					// the remote node stores the message, the reply never arrives
 					cl.Nodes[ni].LoseReplies(1)
 					storedAnyway[ni] = true
+				case st.Mode == "hang":
+					cl.Nodes[ni].Log.HangNext(1, time.Duration(st.HangMs)*time.Millisecond)
 				case st.Mode == "rpc":
 					cl.Nodes[ni].Log.FailNext(1)
 				default:
@@ -190,6 +194,7 @@ func run(c Case) (f *failure, nontrivial bool) {
 			cl.SetUnreachable()
 			for _, n := range cl.Nodes {
 				n.Log.FailNext(0)
+				n.Log.HangNext(0, 0)
 				n.LoseReplies(0)
 			}
 		}
@@ -440,4 +445,31 @@ func TestFaultSubsets(t *testing.T) {
 		}
 	}
 	ev.Exhaustive("3 nodes each hosting a matching subscriber: all 8 subsets of failing destinations x {peer unreachable, remote log refuses, reply lost after the remote append} (local node: local log refuses) for a QoS 1 publish, a QoS 2 PUBREL, a QoS 0 publish, and the same with RETAIN and a zero-length payload (QoS 2 with DUP set)")
+}
+
+// TestHangingRemote: a destination that stalls for several seconds of real time and then refuses
+// the write is a failed destination like any other: no acknowledgement, however long the
+// publisher's node was willing to wait. (Whatever patience the broker has, it is real time.)
+func TestHangingRemote(t *testing.T) {
+	var cases []Case
+	for _, ms := range []int{6500, 9000} {
+		cases = append(cases,
+			Case{Nodes: 2, Clients: 1, Subs: []SubAt{{1, "a/#"}}, Steps: []Step{
+				{Op: "pub", QoS: 1, ID: 1, Topic: "a", FailNodes: []int{1}, Mode: "hang", HangMs: ms},
+				{Op: "pub", QoS: 1, ID: 1, Topic: "a"},
+			}},
+			Case{Nodes: 3, Clients: 1, Subs: []SubAt{{0, "#"}, {1, "a/#"}, {2, "a"}}, Steps: []Step{
+				{Op: "pub", QoS: 2, ID: 2, Topic: "a"},
+				{Op: "pubrel", ID: 2, FailNodes: []int{2}, Mode: "hang", HangMs: ms},
+				{Op: "pubrel", ID: 2},
+				{Op: "pub", QoS: 1, ID: 3, Topic: "a"},
+			}})
+	}
+	for i, c := range cases {
+		c := c
+		t.Run(fmt.Sprint(i), func(t *testing.T) {
+			t.Parallel()
+			check(t, c, "hanging-remote")
+		})
+	}
 }
